@@ -135,7 +135,14 @@ pub fn exec(ctx: &mut Ctx, op: &str, p: &mut Toks) -> String {
                     _ => { let n = p.nat(); items.push(Item::S(n)); }
                 }
             }
-            let run = || try_run(|| {
+            // the same script with every one-point interval widened: the other draws and the shuffles must not change
+            let widened: Vec<Item> = items.iter().map(|it| match it {
+                Item::G(lo, hi) if lo == hi && lo.is_finite() && lo.abs() < 1e30 => Item::G(*lo, *lo + 1.0 + lo.abs()),
+                Item::G(lo, hi) => Item::G(*lo, *hi),
+                Item::S(n) => Item::S(*n),
+            }).collect();
+            let changed: Vec<bool> = items.iter().map(|it| matches!(it, Item::G(lo, hi) if lo == hi && lo.is_finite() && lo.abs() < 1e30)).collect();
+            let run_items = |items: &Vec<Item>| try_run(|| {
                 let mut g = Generator::create(seed);
                 let mut out: Vec<String> = Vec::new();
                 let mut ok_range = true;
@@ -161,9 +168,17 @@ pub fn exec(ctx: &mut Ctx, op: &str, p: &mut Toks) -> String {
                 }
                 (out, ok_range, ok_perm, steps)
             });
+            let run = || run_items(&items);
             let res = run();
             let again = run();
             let input = format!("seed {} mixed sequence of {} draws / shuffles on one generator", seed, k);
+            if changed.iter().any(|c| *c) {
+                if let (Some(a), Some(w)) = (&res, &run_items(&widened)) {
+                    let same = a.0.len() == w.0.len() && (0..a.0.len()).all(|i| changed[i] || a.0[i] == w.0[i]);
+                    ctx.oracle(same, "generate-impure", "the sequence is a function of the seed alone: what a draw returns relative to its interval, and every shuffle, do not depend on the intervals asked for before",
+                        input.clone(), a.0.join(" "), w.0.join(" "));
+                }
+            }
             match (&res, &again) {
                 (Some(a), Some(b)) => {
                     ctx.oracle(a.1, "generate-out-of-range", "generate(min, max) must return a value in [min, max] whatever was drawn before", input.clone(), a.0.join(" "), "every draw in its own interval".into());
